@@ -32,7 +32,12 @@ impl<T> Sender<T> {
     #[track_caller]
     pub fn send(&self, msg: T) -> Result<(), std::sync::mpsc::SendError<T>> {
         self.object.send(location!());
-        self.sender.send(msg)
+        self.sender.send(msg).map_err(|e| {
+            // The receiver is gone and the message comes back to the caller:
+            // it is not in the channel and must not be reported as leaked.
+            self.object.send_failed();
+            e
+        })
     }
 }
 
